@@ -31,6 +31,8 @@ def gen_cases(tier, seed):
     reps = {"quick": 14, "thorough": 400}[tier]
     cases = []
     for name, e in POOL.items():
+        if not e.loop:
+            continue
         r = max(2, reps // e.slow)
         for i in range(r):
             s = stable_hash(seed, "C14", name, i)
@@ -45,7 +47,7 @@ def gen_cases(tier, seed):
 
 
 def required_cells(tier):
-    return ["%s|loop" % n for n in POOL] + ["%s|cold" % n for n in POOL]
+    return ["%s|loop" % n for n, e in POOL.items() if e.loop] + ["%s|cold" % n for n, e in POOL.items() if e.loop]
 
 
 def run_case(desc):
@@ -61,6 +63,8 @@ def run_case(desc):
     y = c.y.copy()
     u0 = int(np.isnan(y).sum())
     bs = u0 + 2 if desc["bs"] == 99 else int(desc["bs"])
+    if e.bs1_only:
+        bs = 1
     expected_cycles = math.ceil(u0 / bs)
     qs = e.make(c.strategy_seed)
     if c.kind == "reg":
